@@ -90,6 +90,11 @@ def size_scripts(seed, L, big=True):
                         {'op': 'wsframe', 's': 1, 'f': 'PINGprobe'}, {'op': 'poll', 's': 1},
                         {'op': 'wsframe', 's': 1, 'f': 'UPGRADE'},
                         {'op': 'wsframesz', 's': 1, 'rel': rel, 'bin': binp}, {'op': 'send', 's': 1}])
+    # multi-byte text: bodies around the limit in BYTES whose character count is far below it
+    for rel in (-3, -2, -1, 0, 1, 2, 3, 4):
+        out.append([{'op': 'open'}, {'op': 'poll', 's': 1},
+                    {'op': 'postsz', 's': 1, 'rel': rel, 'mb': True},
+                    {'op': 'poll', 's': 1}, {'op': 'post', 's': 1, 'body': ['m1']}])
     for rel in (1, 2, 1000):
         out.append([{'op': 'open'}, {'op': 'postdecl', 's': 1, 'rel': rel}, {'op': 'poll', 's': 1}])
     out.append([{'op': 'open'}, {'op': 'posttrunc', 's': 1}, {'op': 'poll', 's': 1}])
